@@ -87,6 +87,10 @@ pub enum Op {
     },
     /// re-send the previous Request/Raw octets unchanged
     Repeat,
+    /// a two-octet fragment with the next sequence number and a function code the outstation does not know, from the configured
+    /// master: it is answered with an error and is not a request the outstation processes - a `Repeat` after it re-sends the
+    /// request sent before it
+    UnknownFunction(u8),
     Sleep(u64),
     /// sleep until `base + delta` after the reference instant (`since_last_tx`: last transmission of the outstation, else now)
     SleepRel {
@@ -615,6 +619,21 @@ pub async fn drive(sim: &Sim, case: &SoutCase, oracle: &mut dyn Oracle) -> RunSu
                 });
             }
             Op::SplitNext(cut) => split_next = Some(*cut),
+            Op::UnknownFunction(func) => {
+                let s = world.app_seq;
+                world.app_seq = (world.app_seq + 1) & 0x0F;
+                let bytes = vec![0xC0 | s, *func];
+                let (src, dest) = (world.cfg.master_addr, world.cfg.outstation_addr);
+                let keep = world.last_request.clone();
+                send_fragment(sim, &mut node, &mut peer, &mut world, &bytes, src, dest);
+                world.last_request = keep;
+                sent = Some(SentFragment {
+                    bytes,
+                    src,
+                    dest,
+                    t_ms: sim.now_ms(),
+                });
+            }
             Op::Raw { bytes, from, to } => {
                 let src = resolve_src(&world.cfg, from);
                 let dest = resolve_dest(&world.cfg, to);
